@@ -136,3 +136,13 @@ def stmts_between(fn: ast.FunctionDef, start_var: str | None, stop_pred=None):
             break
         out.append(st)
     return out
+
+
+def asset_text(name: str) -> str | None:
+    """Text of Gymnasium's MJCF asset gymnasium/envs/mujoco/assets/<name> (None when absent)."""
+    prog = load()
+    path = os.path.join(prog.src_root, "gymnasium", "envs", "mujoco", "assets", name)
+    if not os.path.exists(path):
+        return None
+    with open(path, encoding="utf-8") as f:
+        return f.read()
